@@ -32,6 +32,9 @@ type c05Case struct {
 	// Reject: something in front of the HTTP handlers (auth decorator, proxy, wrong mount point) answers the
 	// request itself with this HTTP status; the handler never runs and the stream has failed at the HTTP level
 	Reject int `json:",omitempty"`
+	// FullDuplex (HTTP carriers): the server enables full duplex per request; nothing holds a reply back then, so
+	// everything has to finish without the client closing its sending side (the open finding does not apply)
+	FullDuplex bool `json:",omitempty"`
 	// Unary mode (Kind == unary): a call that the caller may abandon (cancellation, deadline) while the handler is
 	// still at work; the handler then sets headers/trailers in the drawn order and returns. Judged: the call
 	// returns, the handler's operations return, and no goroutine of the library is left behind.
@@ -193,7 +196,7 @@ func runSchedule(carrier, kind string, steps []Step, postOps bool, copt ...carri
 		// sends the reply anyway: with more than that offered and unread, nothing is withheld
 		unread := r.bytesOffered.Load() - r.bytesTaken.Load()
 		res.UnreadBytes = unread
-		if isHTTP(carrier) && !closedAlready && unread < 300<<10 {
+		if isHTTP(carrier) && !closedAlready && unread < 300<<10 && !co.FullDuplex {
 			// HTTP/1.1 is half-duplex (httpgrpc/doc.go): net/http withholds the reply until the
 			// request body has ended. Give the operations a moment; if they are still pending,
 			// end the request and note that this was needed (open known finding).
@@ -475,6 +478,10 @@ func propC05(c c05Case) *Outcome {
 				h.ServeHTTP(w, r)
 			})
 		}
+	}
+	if c.FullDuplex && isHTTP(c.Carrier) {
+		o.class("full-duplex-server")
+		co.FullDuplex = true
 	}
 	if c.Reject != 0 && isHTTP(c.Carrier) {
 		o.class("rejected-at-http-level")
@@ -789,7 +796,43 @@ func genC05(t *rapid.T) c05Case {
 		}
 		c.Steps = append(pre, c.Steps...)
 	}
+	if clientStreaming(c.Kind) && rapid.IntRange(0, 7).Draw(t, "senderahead") == 0 {
+		// drawn deliberately: the client's sender is ahead of the handler (2..4 sends, nobody receiving), the handler
+		// sets headers and/or trailers and leaves (with or without an error) - then whatever else was drawn
+		var pre []Step
+		for i, n := 0, rapid.IntRange(2, 4).Draw(t, "senderahead-n"); i < n; i++ {
+			pre = append(pre, Step{Actor: "cs", Op: "send", Size: 5})
+		}
+		for _, op := range rapid.SliceOfNDistinct(rapid.SampledFrom([]string{"sethdr", "sendhdr", "settlr"}), 0, 3, func(s string) string { return s }).Draw(t, "senderahead-ops") {
+			pre = append(pre, Step{Actor: "h", Op: op})
+		}
+		pre = append(pre, Step{Actor: "h", Op: "return", Code: rapid.SampledFrom([]uint32{0, 7, 9}).Draw(t, "senderahead-code")})
+		var rest []Step
+		for _, st := range c.Steps {
+			if st.Actor != "h" { // the handler is gone
+				rest = append(rest, st)
+			}
+		}
+		c.Steps = append(pre, rest...)
+	}
+	if c.Carrier == cInproc && c.Kind == kBidi && rapid.IntRange(0, 9).Draw(t, "helperahead") == 0 {
+		// drawn deliberately: a helper goroutine of the handler pushes responses nobody takes yet (its second send
+		// parks), the client's sender runs ahead as well (its sends park too), and the handler itself returns
+		pre := []Step{{Actor: "h2", Op: "send", Size: 5}, {Actor: "h2", Op: "send", Size: 5}}
+		for i, n := 0, rapid.IntRange(2, 3).Draw(t, "helperahead-n"); i < n; i++ {
+			pre = append(pre, Step{Actor: "cs", Op: "send", Size: 5})
+		}
+		pre = append(pre, Step{Actor: "h", Op: "return", Code: rapid.SampledFrom([]uint32{0, 3}).Draw(t, "helperahead-code")})
+		var rest []Step
+		for _, st := range c.Steps {
+			if st.Actor != "h" && st.Actor != "h2" {
+				rest = append(rest, st)
+			}
+		}
+		c.Steps = append(pre, rest...)
+	}
 	c.BadReplyHeader = isHTTP(c.Carrier) && rapid.IntRange(0, 9).Draw(t, "badhdr") == 0
+	c.FullDuplex = isHTTP(c.Carrier) && rapid.IntRange(0, 2).Draw(t, "fullduplex") == 0
 	if isHTTP(c.Carrier) && !c.BadReplyHeader && rapid.IntRange(0, 19).Draw(t, "reject") == 0 {
 		c.Reject = rapid.SampledFrom([]int{401, 403, 404, 415, 502, 503}).Draw(t, "rejectstatus")
 	}
@@ -800,7 +843,7 @@ func init() { registerReplay("C05", propC05) }
 
 const c05Rule = "rapid-generated schedules of <=14 steps over three actors (client sender: SendMsg small/medium, CloseSend also repeated; client receiver: RecvMsg, Header, Trailer; handler: RecvMsg, SendMsg, SetHeader, SendHeader, SetTrailer, return ok/err) plus cancellation, on the in-process channel, httpgrpc.Server and HandleServices for client-, server- and bidi-streaming; each step is released when the previous one has returned or parked (goroutine state from runtime.Stack); " +
 	"then phase A (client closes and drains, handler returns), phase B (context cancelled), operations after completion, goroutine census; invariants: no panic; everything finishes in phase A (10 s, stable park = deadlock) and certainly in phase B; later operations return; without cancellation sends return nil or io.EOF (EOF only once the handler returned), receives are an intact prefix of what the handler sent followed by the handler's status, stable across repeated calls; no library goroutine survives; " +
-	"also generated since the seeded rounds: a second client goroutine calling CloseSend, a second handler goroutine (in-process) incl. SendHeader after the handler returned, sends above 256 KiB, undecodable reply headers and HTTP-level rejection (401/403/404/415/502/503 from a middleware: only termination, panics and leaks judged), senders-only drain stage, a second receiving goroutine calling Header() concurrently with RecvMsg, the per-method HTTP server form, handlers answering a single-response method 3..5 times, and a goroutine census taken before any cancellation once the client has received the final status; unary calls (3..8 in a row) that the caller abandons by cancellation or deadline while the handler is at work, the handler then setting/sending headers and trailers in any order and returning nil, a status or its context's error (call returns, handler operations return, no library goroutine left); " +
+	"also generated since the seeded rounds: a second client goroutine calling CloseSend, a second handler goroutine (in-process) incl. SendHeader after the handler returned, sends above 256 KiB, undecodable reply headers and HTTP-level rejection (401/403/404/415/502/503 from a middleware: only termination, panics and leaks judged), senders-only drain stage, a second receiving goroutine calling Header() concurrently with RecvMsg, the per-method HTTP server form, handlers answering a single-response method 3..5 times, a sender 2..4 messages ahead of a handler that sets headers/trailers and leaves, a handler that returns while its helper goroutine and the client's sender are both parked in sends, and a goroutine census taken before any cancellation once the client has received the final status; unary calls (3..8 in a row) that the caller abandons by cancellation or deadline while the handler is at work, the handler then setting/sending headers and trailers in any order and returning nil, a status or its context's error (call returns, handler operations return, no library goroutine left); " +
 	"non-trivial = a scheduled client operation was pending or issued after the handler returned; distinct by case hash"
 
 func TestC05(t *testing.T) {
